@@ -92,7 +92,29 @@ def salt_of(name):
     return sum(ord(c) * (i + 1) for i, c in enumerate(name)) % 7
 
 
-def row_value(kind, two, w, name, g, keymod=None):
+# widths of text cells: every dataset has a width profile, so that the two sides of extend / merge_with have
+# numpy string dtypes of different widths, straddling the 9/10 and 99/100 character boundaries in both directions
+WIDTHS = {
+    "narrow": [9, 2, 5, 1, 8, 3],           # max 9 -> '<U9'
+    "wide": [10, 25, 11, 2, 17, 10],        # '<U10'..'<U25', with a short cell among them
+    "mixed": [1, 2, 9, 10, 11, 25, 3, 9, 10, 5],
+    "huge": [99, 100, 5, 100, 99, 12],      # '<U99' / '<U100'
+    "w99": [99, 5, 12],                     # exactly '<U99'
+    "w100": [100, 3, 7],                    # exactly '<U100'
+}
+FILLER = "abcdefghijklmnopqrstuvwxyzABCDEFGHIJKLMNOPQRSTUVWXYZ_-" * 2
+
+
+def text_cell(tag, g, wprof):
+    ws = WIDTHS[wprof]
+    width = ws[g % len(ws)]
+    core_ = f"{tag}{g}"
+    if width <= len(core_):
+        return core_[-width:]
+    return core_ + FILLER[:width - len(core_)]
+
+
+def row_value(kind, two, w, name, g, keymod=None, wprof="narrow"):
     """The row of observation g in field `name` (python values; all doubles are small dyadics)."""
     s = salt_of(name)
     if kind == "float":
@@ -103,8 +125,8 @@ def row_value(kind, two, w, name, g, keymod=None):
         return [float(g) + s / 4.0]
     if kind == "text":
         if two:
-            return [f"{name[0]}{g}", f"q{g % 2}"][:w] + [f"z{j}" for j in range(2, w)]
-        return [f"{name[0]}{g}"]
+            return [text_cell(name[0], g, wprof), text_cell("q", g + 3, wprof)][:w] + [f"z{j}" for j in range(2, w)]
+        return [text_cell(name[0], g, wprof)]
     if kind == "bool":
         return [(g + s) % 2 == 0]
     if kind == "time":
@@ -154,7 +176,7 @@ def fd(path, kind, two=False, w=1, unit=None, refs=None, keymod=None):
 
 def base_schema_small():
     return [
-        fd("rid", "float"), fd("key", "float", keymod=2), fd("tx", "text"),
+        fd("rid", "float"), fd("key", "float", keymod=2), fd("tx", "text"), fd("t2", "text", two=True, w=2),
         fd("time", "time"),
         fd("sat", "position", refs={"time": ("field", "time")}),
         fd("site", "position", refs={"other": ("field", "sat")}),
@@ -242,8 +264,9 @@ def make_anon(kind, rows, n):
 class Real:
     """A real Dataset + the Coq terms of the operations that built it + its schema."""
 
-    def __init__(self, n, base):
+    def __init__(self, n, base, wprof="narrow"):
         from midgard.data import dataset
+        self.wprof = wprof
         self.ds = dataset.Dataset(num_obs=n)
         self.gids = list(range(base, base + n))
         self.terms = [f"New {emit.nat(n)} {emit.zs(base)}"]
@@ -255,7 +278,7 @@ class Real:
         gids = self.gids if gids is None else gids
         n = len(gids)
         kind, two, w, path = f["kind"], f["two"], f["w"], f["path"]
-        rows = [row_value(kind, two, w, path, g, f.get("keymod")) for g in gids]
+        rows = [row_value(kind, two, w, path, g, f.get("keymod"), self.wprof) for g in gids]
         kw = {}
         ref_terms = []
         for attr, tgt in f["refs"].items():
@@ -298,8 +321,8 @@ class Real:
         self.schema[path] = f
 
 
-def build_real(schema, n, base):
-    r = Real(n, base)
+def build_real(schema, n, base, wprof="narrow"):
+    r = Real(n, base, wprof)
     for f in schema:
         r.add(f)
     return r
@@ -442,10 +465,11 @@ class History:
         self.dead = False
         self.next_base = 1000
         self.fresh = 0
+        self.nderived = 0
 
     # -- building the start dataset (not observed step by step)
-    def start(self, schema, n, base=0):
-        self.real = build_real(schema, n, base)
+    def start(self, schema, n, base=0, wprof="narrow"):
+        self.real = build_real(schema, n, base, wprof)
         for t in self.real.terms:
             self.steps.append((t, "OSkip"))
         self.log.extend(self.real.pylog)
@@ -516,7 +540,7 @@ class History:
     def add(self, f):
         gids = self.current_gids()
         before = len(self.real.terms)
-        term = term_of_add(f, gids, self.real.anon)
+        term = term_of_add(f, gids, self.real.anon, self.real.wprof)
         self.do(term, f"ds.add_{f['kind']}({f['path']!r}, ..., unit={f['unit']}, refs={f['refs']})",
                 lambda: self.real.add(f, gids))
         del self.real.terms[before:]
@@ -595,7 +619,14 @@ class History:
         self.do("Unique " + emit.s(path), f"ds.unique({path!r})", lambda: self.real.ds.unique(path), result=("vals", kind))
 
     # -- a dataset that can be extended onto the current one (congruent sharing)
-    def derive_other(self, rng, n, drop_p=0.0, extra=None, unit_flip=0.0):
+    def derive_other(self, rng, n, drop_p=0.0, extra=None, unit_flip=0.0, wprof=None):
+        if wprof is None:
+            # by default the other side alternates between the opposite and the own width class, so that both
+            # "self narrow, other wide" and "self already widened, other narrow" occur in one history
+            opposite = {"narrow": "wide", "wide": "narrow", "mixed": "wide", "huge": "narrow"}.get(self.real.wprof, "narrow")
+            own = {"narrow": "narrow", "wide": "wide", "mixed": "narrow", "huge": "huge"}.get(self.real.wprof, "wide")
+            wprof = opposite if self.nderived % 2 == 0 else own
+        self.nderived += 1
         base = self.alloc(n)
         keep = [p for p in self.real.schema if p in ("rid", "key") or rng.random() >= drop_p]
         sch = []
@@ -632,12 +663,12 @@ class History:
         for e in (extra or []):
             if e["path"] not in names:
                 order.append(e)
-        return build_real(order, n, base)
+        return build_real(order, n, base, wprof)
 
 
-def term_of_add(f, gids, anon):
+def term_of_add(f, gids, anon, wprof="narrow"):
     kind, two, w, path = f["kind"], f["two"], f["w"], f["path"]
-    rows = [row_value(kind, two, w, path, g, f.get("keymod")) for g in gids]
+    rows = [row_value(kind, two, w, path, g, f.get("keymod"), wprof) for g in gids]
     ref_terms = []
     for attr, tgt in f["refs"].items():
         if tgt[0] == "field":
@@ -696,7 +727,7 @@ def apply_letter(h, letter, step, rng):
             h.unique("key", "float")
 
 
-def derive_fixed(h, drop, n, extra=None):
+def derive_fixed(h, drop, n, extra=None, wprof=None):
     class R:
         def __init__(self):
             self.q = []
@@ -709,14 +740,17 @@ def derive_fixed(h, drop, n, extra=None):
             continue
         r.q.append(0.0 if p in drop else 1.0)
     r.q.extend([1.0] * 50)
-    return h.derive_other(r, n, drop_p=0.5, extra=extra)
+    return h.derive_other(r, n, drop_p=0.5, extra=extra, wprof=wprof)
 
 
 # ----------------------------------------------------------------------------- random histories
 def random_history(ctx, rng, label, max_ops, big=False):
     h = History(ctx, label)
     n = rng.choice([0, 1, 2, 3, 3, 4, 5, 6, 8]) if not big else rng.choice([17, 24, 33, 64])
-    h.start(random_schema(rng), n)
+    profiles = ["narrow", "wide", "mixed", "mixed", "huge"] if not big else ["narrow", "wide", "mixed"]
+    h.start(random_schema(rng), n, wprof=rng.choice(profiles[:4]))
+    counts_profile = lambda p: ctx.count("text_width_profile:" + p)
+    counts_profile("self:" + h.real.wprof)
     nops = rng.randrange(1, max_ops + 1)
     for step in range(nops):
         if h.dead:
@@ -740,7 +774,9 @@ def random_history(ctx, rng, label, max_ops, big=False):
             ctx.count("op:subset_invalid")
         elif r < 0.44:
             m = rng.choice([0, 1, 2, 3, 5]) if not big else rng.choice([5, 20])
-            other = h.derive_other(rng, m, drop_p=rng.choice([0.0, 0.0, 0.15, 0.4]),
+            wp = rng.choice(profiles) if rng.random() < 0.6 else None
+            counts_profile("other:" + str(wp or "alternate"))
+            other = h.derive_other(rng, m, wprof=wp, drop_p=rng.choice([0.0, 0.0, 0.15, 0.4]),
                                    extra=[fd(f"x{step}", rng.choice(["float", "text", "bool", "time_delta", "sigma"]))] if rng.random() < 0.3 else None,
                                    unit_flip=rng.choice([0.0, 0.5]))
             h.extend(other)
@@ -750,7 +786,8 @@ def random_history(ctx, rng, label, max_ops, big=False):
             others = []
             for _ in range(k):
                 m = rng.choice([0, 1, 2, 4]) if not big else rng.choice([8, 20])
-                others.append(h.derive_other(rng, m, drop_p=rng.choice([0.0, 0.0, 0.2])))
+                others.append(h.derive_other(rng, m, drop_p=rng.choice([0.0, 0.0, 0.2]),
+                                             wprof=rng.choice(profiles) if rng.random() < 0.6 else None))
                 # the next one must be congruent with what self will be: refresh the schema view
                 for p, f in others[-1].schema.items():
                     h.real.schema.setdefault(p, f)
@@ -870,7 +907,9 @@ def make_history(spec):
         return _make_history(spec, counts)
 
 
-CORPUS = ["subset_index", "unstable_sort", "nested_pad", "fill_unattached", "empty_self_nested", "empty_other_sharing"]
+CORPUS = ["subset_index", "unstable_sort", "nested_pad", "fill_unattached", "empty_self_nested", "empty_other_sharing",
+          "text_narrow_then_wide", "text_wide_then_narrow", "text_99_100", "text_100_99", "text_u99_u100", "text_u100_u99",
+          "text_merge_widths"]
 
 
 def corpus_history(name):
@@ -892,6 +931,21 @@ def corpus_history(name):
     elif name == "empty_self_nested":
         h.start(rk + [fd("grp.g1", "float"), fd("grp.gt", "text")], 0)
         h.extend(build_real(rk + [fd("grp.g1", "float")], 1, 100))
+    elif name.startswith("text_"):
+        # string dtypes of different widths on the two sides (U9 / U10.., U99 / U100), 1-d and 2-d, both directions
+        tsch = rk + [fd("tx", "text"), fd("t2", "text", two=True, w=2), fd("grp.gt", "text")]
+        first, second = {"text_narrow_then_wide": ("narrow", "wide"), "text_wide_then_narrow": ("wide", "narrow"),
+                         "text_99_100": ("huge", "narrow"), "text_100_99": ("narrow", "huge"),
+                         "text_u99_u100": ("w99", "w100"), "text_u100_u99": ("w100", "w99"),
+                         "text_merge_widths": ("mixed", "wide")}[name]
+        h.start(tsch, 3, wprof=first)
+        if name == "text_merge_widths":
+            h.merge([build_real(tsch, 3, 100, second), build_real(tsch, 2, 200, "narrow")], "rid")
+            h.subset_mask([True, False, True, True, False, True, True, True])
+            h.filter([("tx", "text", str(np.asarray(h.real.ds.tx)[1]))])
+        else:
+            h.extend(build_real(tsch, 4, 100, second))
+            h.extend(build_real(tsch, 2, 200, first))
     elif name == "empty_other_sharing":
         h.start(rk + [fd("sat", "position"), fd("site", "position", refs={"other": ("field", "sat")})], 2)
         h.extend(build_real(rk + [fd("site", "position", refs={"other": ("anon", "p0", "position")})], 0, 100))
